@@ -582,6 +582,18 @@ def replay(rp):
     if kind == "reject":
         r = vlib.yqh_batch(parse_reqs([rp["expr"]]))[0]
         return impl_class(r).startswith("ERR")
+    if kind == "file":
+        d = os.path.join(vlib.WORK, "C09", "replay")
+        os.makedirs(d, exist_ok=True)
+        res = []
+        for nm in ("script_b64", "reference_b64"):
+            with open(os.path.join(d, nm + ".yq"), "wb") as f:
+                f.write(vlib.b64d(rp[nm]))
+            with open(os.path.join(d, "doc.json"), "w") as f:
+                f.write(rp["doc"])
+            rc, out, _ = vlib.run_yq(["-o=json", "-I=0", "--from-file", os.path.join(d, nm + ".yq"), os.path.join(d, "doc.json")])
+            res.append((rc if rc == 0 else 1, out if rc == 0 else b""))
+        return res[0] == res[1]
     return False
 
 
@@ -966,7 +978,7 @@ def run(chk):
                  ".\"a b\"", ".\"a\"?", ".\"a\".b", ".a.\"b c\"[0]", "{\"a\":1}", "{\"a\": 1 }", "{ .a : .b }", "[ ]", "{ }", "[]", "{}", "( )", "()",
                  "\u00e9", ".\u00e9", ".a\u4e2d.b", "\"\u00e9\u4e2d\"", "@", "!", "&", ".a & .b", "`", ".a;.b", ".a ; .b", "a", "abc", ".a as $x | $x", ".a ref $x | $x",
                  "1 or2", "1and 2", "lengthkeys", "length keys", "keys[0]", "not", ".a | not", "ireduce", "array_to_map", "arrayToMap", "any_c(.a)", "any", "all_c(.)", "min", "max",
-                 ".a \n\t # c \n | \n .b", "\n", " ", "\t", "", ".a\r| .b", ".a\f.b", "1\r\n+ 2"]
+                 ".a \n\t # c \n | \n .b", "\n", " ", "\t", "", ".a\r| .b", ".a\f.b", "1\r\n+ 2", ".a\r\n| .b", ".a |\r\n.b", "[1,\r\n2]", "(\r\n1)", "1 +\r\n2", "\"s\"\r\n", "length\r\n| .", ".\r\n", ".a\r", "\r.a"]
     lresp = vlib.yqh_parallel(parse_reqs(lex_extra))
     for s_, r in zip(lex_extra, lresp):
         chk.count(("lex", s_), nontrivial=True)
@@ -1084,6 +1096,81 @@ def run(chk):
     chk.extra["interpolation_pairs"] = len(imeta)
     chk.extra["interpolation_ok"] = int_ok
     dist["interpolation/pairs"] = len(imeta)
+    # ---------------------------------------------------------------- grouping independence of associative operators (evaluation),
+    # including operands that hand back the SAME node (.a, .a / .x // .b where .x is missing / aliases)
+    gdocs = ['{"a":{"b":2},"b":5,"c":[3,1,2],"name":"n","job":"unit","image":"go"}', '{"job":"e2e","image":"go","test_image":"cy","b":1,"a":[1,2]}']
+    gpool = [".a", ".b", ".a", ".name", ".x // .b", ".test_image // .image", ".image", ".job", ".c[0]", ".a.b", ".b // .a", ".c | .[1]", "1", "\"s\"", ".zz"]   # no bare `.`: `. , .` is the recorded C01 finding union-same-list
+    greqs, gmeta = [], []
+    for sym in (",", "|", "and", "or", "+"):
+        pool = gpool if sym in (",",) else ([".", ".a", ".b", "(.a // .b)", ".c", ".name"] if sym == "|" else
+                                            ([".b", ".a.b", "1", ".c[0]", "(.x // .b)", ".b"] if sym == "+" else [".b", ".zz", "true", "false", "(.x // .b)", ".a", ".b"]))
+        combos = []
+        for a in pool:
+            for b in pool:
+                for c3 in pool:
+                    combos.append((a, b, c3))
+        rng.shuffle(combos)
+        for a, b, c3 in combos[: (400 if thorough else (120 if sym == "," else 25))] + ([(".job", ".image", ".test_image // .image"), (".a", ".a", ".a"), (".x // .b", ".b", ".b")] if sym == "," else []):
+            flat = "%s %s %s %s %s" % (a, sym, b, sym, c3)
+            left = "(%s %s %s) %s %s" % (a, sym, b, sym, c3)
+            right = "%s %s (%s %s %s)" % (a, sym, b, sym, c3)
+            incol = "[%s] | length" % flat
+            incol2 = "[(%s %s %s) %s %s] | length" % (a, sym, b, sym, c3)
+            for d in gdocs:
+                greqs += [eval_req(flat, d), eval_req(left, d), eval_req(right, d), eval_req(incol, d), eval_req(incol2, d)]
+                gmeta.append((flat, left, right, incol, incol2, d))
+    gresp = vlib.yqh_parallel(greqs)
+    ngrp = 0
+    for k, (flat, left, right, incol, incol2, d) in enumerate(gmeta):
+        o = [eval_obs(gresp[5 * k + j]) for j in range(5)]
+        chk.count(("group", flat, d), nontrivial=(o[0][0] == "ok"))
+        for (x, y, ex, ey) in ((0, 1, flat, left), (0, 2, flat, right), (3, 4, incol, incol2)):
+            if o[x] != o[y]:
+                ngrp += 1
+                if ngrp <= 3:
+                    chk.violation({"kind": "eval", "expr_a": ex, "expr_b": ey, "doc": d, "result_a": repr(o[x])[:300], "result_b": repr(o[y])[:300]}, True,
+                                  "regrouping a chain of one associative operator changes the result")
+    chk.extra["grouping_cases"] = len(gmeta)
+    dist["grouping"] = len(gmeta)
+
+    # ---------------------------------------------------------------- expression FILES (--from-file, the real binary): line endings
+    # LF / CRLF / trailing blank lines must not matter (lone CR and a BOM are not claimed)
+    from concurrent.futures import ThreadPoolExecutor
+    fdir = os.path.join(chk.workdir, "scripts")
+    os.makedirs(fdir, exist_ok=True)
+    fdoc = os.path.join(fdir, "doc.json")
+    with open(fdoc, "w") as f:
+        f.write(DOCS[0])
+    scripts = [".a\n| .b", ".name\n", ".a\n  | .c\n  | .[1]", "[.b,\n .k1\n]", "{\"k\": .b,\n \"n\": .k1}", ".c\n| map(. + 1)\n| .[0]", ".a.b\n+ 1", ".b == 5\nand true",
+               "# comment\n.a # trailing\n| .b", ".a |\n.c |\nlength", "select(.b == 5)\n| .k1", ".c[0]\n, .c[1]", "$ENV\n| kind", ".\n| .b", "\"s\"\n+ .k1", ".a\n\n\n| .b"]
+    for ti in range(rand_start, min(rand_start + (200 if thorough else 25), rand_start + n_rand)):
+        scripts.append(layout(render(terms[ti][0], "min"), "newline", rng))
+    fjobs = []
+    for k, sc in enumerate(scripts):
+        variants = {"lf": sc + "\n", "crlf": sc.replace("\n", "\r\n") + "\r\n", "lf-blank": sc + "\n\n\n", "crlf-blank": sc.replace("\n", "\r\n") + "\r\n\r\n\r\n",
+                    "nonl": sc, "crlf-nonl": sc.replace("\n", "\r\n")}
+        for vn, content in variants.items():
+            pth2 = os.path.join(fdir, "s%d_%s.yq" % (k, vn))
+            with open(pth2, "wb") as f:
+                f.write(content.encode())
+            fjobs.append((k, vn, pth2, content))
+    with ThreadPoolExecutor(vlib.NCPU) as ex:
+        fres = list(ex.map(lambda j: vlib.run_yq(["-o=json", "-I=0", "--from-file", j[2], fdoc]), fjobs))
+    base = {}
+    nfile = 0
+    for (k, vn, pth2, content), (rc, out, errb) in zip(fjobs, fres):
+        obs = (rc if rc in (0, "timeout") else 1, out if rc == 0 else b"")
+        chk.count(("file", k, vn), nontrivial=(rc == 0))
+        if vn == "lf":
+            base[k] = obs
+        elif obs != base[k]:
+            nfile += 1
+            if nfile <= 3:
+                chk.violation({"kind": "file", "script_b64": vlib.b64e(content), "reference_b64": vlib.b64e(scripts[k] + "\n"), "doc": DOCS[0], "variant": vn,
+                               "result": repr(obs)[:200], "reference_result": repr(base[k])[:200]}, True,
+                              "an expression file with %s line endings evaluates differently from the same file with LF" % vn)
+    chk.extra["expression_files"] = len(fjobs)
+    dist["files"] = len(fjobs)
     chk.extra["eval_triples"] = len(emeta)
     chk.extra["eval_ok"] = ok_evals
     dist["eval/ok"] = ok_evals
